@@ -124,6 +124,16 @@ func genC20(r *Rand, tier string, i int) *h.Scenario {
 				for w, m := 0, r.Range(1, 3); w < m; w++ {
 					d.Wrap = append(d.Wrap, []int{h.WrapMeta, h.WrapOnCompleteMeta, h.WrapOnAbortMeta}[r.Intn(3)])
 				}
+				if r.Bool(0.3) {
+					// a wrapper that replaces the text once the bar has finished: the printed value is
+					// not read for this decorator, the samples it receives still are
+					d.Wrap = append(d.Wrap, []int{h.WrapOnComplete, h.WrapOnAbort, h.WrapOnCompleteOrOnAbort}[r.Intn(3)])
+					if r.Bool(0.5) {
+						d.Wrap = append(d.Wrap, h.WrapMeta)
+					}
+					d.Mark = false
+					d.Age = 0
+				}
 			}
 			if r.Bool(0.5) {
 				bs.Pre = append(bs.Pre, d)
